@@ -141,6 +141,13 @@ def position_visited(ctx, tr: Transformer, cls: str, member: str, sub_attr: Opti
     ix, T = ctx.ix, ctx.typer
     hier = set(ix.mro(cls)) | set(ix.subclasses(cls))
     via = set(via_methods)
+    # helpers of the visitor that hand their own argument on to visit() count as visiting it
+    for g in tr.funcs:
+        if g.cls and not g.name.startswith("visit") and len(g.params) >= 2:
+            p0 = g.params[1]
+            for n in walk_no_nested(g.node):
+                if isinstance(n, ast.Call) and isinstance(n.func, ast.Attribute) and n.func.attr == "visit" and n.args and isinstance(n.args[0], ast.Name) and n.args[0].id == p0:
+                    via.add(g.name)
     for f in tr.funcs:
         fl = tr.flows[f.qualname]
         for cs in T.callsites(f):
@@ -644,6 +651,26 @@ def check_symbolic_qubits_left_alone(ctx, rep, rule: str):
                         guard = st
             in_try = False
             fl = FuncFlow(ix, T, f)
+            # the guard covers let constants as well as parameters (a let may still be overridden)
+            covers_lets = None
+            if guard is not None:
+                for m in ast.walk(guard.test):
+                    if isinstance(m, ast.Call) and isinstance(m.func, ast.Name):
+                        helper = ix.functions.get(f"{f.module}.{m.func.id}")
+                        if helper is not None:
+                            types = set()
+                            for t_ in ast.walk(helper.node):
+                                if isinstance(t_, ast.Call) and isinstance(t_.func, ast.Name) and t_.func.id == "isinstance" and len(t_.args) == 2:
+                                    for x_ in (t_.args[1].elts if isinstance(t_.args[1], ast.Tuple) else [t_.args[1]]):
+                                        types.add(ast.unparse(x_).split(".")[-1])
+                            covers_lets = "AnnotatedValue" in types or {"Parameter", "Constant"} <= types
+                if covers_lets is None:
+                    tys = {ast.unparse(x_).split(".")[-1] for m in ast.walk(guard.test) if isinstance(m, ast.Call) and isinstance(m.func, ast.Name) and m.func.id == "isinstance" and len(m.args) == 2 for x_ in (m.args[1].elts if isinstance(m.args[1], ast.Tuple) else [m.args[1]])}
+                    covers_lets = "AnnotatedValue" in tys or {"Parameter", "Constant"} <= tys
+            if guard is not None and not covers_lets:
+                rep.violation(rule, construct_of(f, "symbolic-qubit-guard:lets"), "the guard only recognises macro parameters: a reference that depends on a let constant (`q[i]`, `a[i]`, an alias with a let-valued bound) is resolved at the constant's file value, so fill_in_map followed by fill_in_let(override) differs from the documented order", loc, witness="let i 1\nregister q[3]\nG q[i]   with override i=0")
+            elif guard is not None:
+                rep.ok(rule, construct_of(f, "symbolic-qubit-guard:lets"), "the guard also covers let constants (AnnotatedValue)", loc)
             if guard is not None:
                 rep.ok(rule, cons, f"`{ast.unparse(guard.test)}` returns the qubit unchanged before the context-free resolution", loc)
             else:
@@ -892,3 +919,242 @@ def check_cached_mutables(ctx, rep, rule: str, modules):
     if n == 0:
         raise AnalysisError(f"{rule}: no module of {modules} found")
     rep.analysed["cached_mutable_modules_scanned"] = n
+
+
+def check_context_bookkeeping_keys(ctx, rep, rule: str):
+    """The builder resolves program identifiers in a dict (`context`); anything it stores there for its own
+    bookkeeping must not be spellable as an identifier, or a program using that name reads the bookkeeping value."""
+    import re as _re
+    from ..lexer import extract_lexer
+
+    ix, T = ctx.ix, ctx.typer
+    rep.rule(rule, "keys the builder stores in the identifier context for its own bookkeeping cannot be spelled as a Jaqal identifier", floor=1)
+    lm = extract_lexer(ix)
+    ident = lm.rule("IDENTIFIER")
+    if ident is None:
+        raise AnalysisError(f"{rule}: IDENTIFIER token vanished")
+    pat = _re.compile(ident.pattern)
+    n = 0
+    for f in ix.functions.values():
+        if f.module != "jaqalpaq.core.circuitbuilder" or isinstance(f.node, ast.Lambda):
+            continue
+        if "context" not in f.params:
+            continue
+        # local names bound to string displays
+        strs = {}
+        for st in ast.walk(f.node):
+            if isinstance(st, ast.Assign) and len(st.targets) == 1 and isinstance(st.targets[0], ast.Name) and isinstance(st.value, (ast.JoinedStr, ast.Constant, ast.Tuple)):
+                strs[st.targets[0].id] = st.value
+        for nd in walk_no_nested(f.node):
+            key = None
+            if isinstance(nd, ast.Subscript) and isinstance(nd.ctx, ast.Store) and isinstance(nd.value, ast.Name) and nd.value.id == "context":
+                key = nd.slice
+            if key is None:
+                continue
+            k = strs.get(key.id) if isinstance(key, ast.Name) else key
+            if k is None or not isinstance(k, (ast.JoinedStr, ast.Constant, ast.Tuple)):
+                continue  # a program name (parameter / unpacked S-expression element)
+            n += 1
+            cons = construct_of(f, f"context-key:{ast.unparse(k)[:40]}")
+            loc = f"{f.path}:{nd.lineno}"
+            if isinstance(k, ast.Tuple) or (isinstance(k, ast.Constant) and not isinstance(k.value, str)):
+                rep.ok(rule, cons, "the key is not a string: no identifier can equal it", loc)
+                continue
+            sample = "".join(p.value if isinstance(p, ast.Constant) else "x" for p in k.values) if isinstance(k, ast.JoinedStr) else k.value
+            if pat.fullmatch(sample):
+                rep.violation(rule, cons, f"the bookkeeping key `{ast.unparse(k)}` (e.g. {sample!r}) is itself a legal identifier: a program that uses that name as a let, gate argument or macro parameter reads the builder's flag instead (`< foo __in_context_parallel__ >` is built with the argument True)", loc, witness="let __in_context_parallel__ 3\nregister q[4]\n< foo __in_context_parallel__ >")
+            else:
+                rep.ok(rule, cons, f"{sample!r} is outside the IDENTIFIER token language", loc)
+    if n == 0:
+        rep.ok(rule, "core.circuitbuilder:context-bookkeeping", "the builder stores nothing but program names in the identifier context")
+
+
+def check_no_frozen_size(ctx, rep, rule: str):
+    """An alias's size is computed from the *declared* let values; the builder must not store it as a plain number
+    in another alias (an omitted slice bound stays open), or overriding the let leaves a stale bound behind."""
+    from ..fieldflow import FuncFlow
+
+    ix, T = ctx.ix, ctx.typer
+    rep.rule(rule, "the builder stores the size of a source register into an alias bound only for fundamental registers (whose size is the symbolic let itself); the computed size of an alias is never frozen", floor=1)
+    f = ix.functions.get("jaqalpaq.core.circuitbuilder.Builder.build_map")
+    if f is None:
+        raise AnalysisError(f"{rule}: Builder.build_map vanished")
+    fl = FuncFlow(ix, T, f)
+    n = 0
+    for nd in walk_no_nested(f.node):
+        if isinstance(nd, ast.Attribute) and nd.attr in ("size", "_size") and isinstance(nd.ctx, ast.Load) or (isinstance(nd, ast.Call) and isinstance(nd.func, ast.Attribute) and nd.func.attr in ("resolve_size", "__len__")) or (isinstance(nd, ast.Call) and isinstance(nd.func, ast.Name) and nd.func.id == "len" and nd.args and isinstance(nd.args[0], ast.Name) and nd.args[0].id in ("src",)):
+            st = fl.enclosing_stmt(nd)
+            if not isinstance(st, ast.Assign):
+                continue
+            n += 1
+            cons = construct_of(f, f"frozen-size:{ast.unparse(st)[:40]}")
+            loc = f"{f.path}:{nd.lineno}"
+            tests = fl.control_tests(nd)
+            guarded = any(isinstance(m, ast.Attribute) and m.attr == "fundamental" for t in tests for m in ast.walk(t))
+            if guarded:
+                rep.ok(rule, cons, "only under a `.fundamental` test: a fundamental register's size is the let constant itself", loc)
+            else:
+                rep.violation(rule, cons, f"`{ast.unparse(st)}` stores the source's size as computed from the declared let values: with `let n 4; register q[n]; map rest q[1:]; map tail rest[1:]`, overriding n=3 leaves tail = rest[1:3] and fill_in_let rejects the legal program (n=6 silently keeps tail at 2 qubits)", loc, witness="let n 4\nregister q[n]\nmap rest q[1:]\nmap tail rest[1:]\nPx tail[0]   with override n=3")
+    if n == 0:
+        rep.ok(rule, construct_of(f, "frozen-size"), "build_map stores no computed size")
+
+
+
+def check_shadowed_register_names(ctx, rep, rule: str):
+    """Inside a macro body a parameter may carry the name of the fundamental register; alias fill-in must not spell a
+    resolved qubit with that name there (the generated text would index the parameter)."""
+    from ..cfg import iter_stmts
+
+    ix, T = ctx.ix, ctx.typer
+    rep.rule(rule, "alias fill-in spells a resolved qubit as <register>[index] inside a macro body only after testing that the register's name is not one of the macro's parameters", floor=1)
+    MOD = "jaqalpaq.core.algorithm.fill_in_map"
+    vq = vm = None
+    for f in ix.functions.values():
+        if f.module == MOD and f.cls and T.is_visitor(f.cls):
+            if f.name == "visit_NamedQubit":
+                vq = f
+            elif f.name == "visit_Macro":
+                vm = f
+    if vq is None or vm is None:
+        raise AnalysisError(f"{rule}: MapFiller.visit_NamedQubit / visit_Macro vanished")
+    # attributes of self that visit_Macro derives from macro.parameters
+    mparam = vm.params[1]
+    state = set()
+    for st in iter_stmts(vm.body):
+        if isinstance(st, ast.Assign) and any(isinstance(m, ast.Attribute) and m.attr == "parameters" and isinstance(m.value, ast.Name) and m.value.id == mparam for m in ast.walk(st.value)):
+            for t in st.targets:
+                if isinstance(t, ast.Attribute) and isinstance(t.value, ast.Name) and t.value.id == vm.params[0]:
+                    state.add(t.attr)
+    cons = construct_of(vq, "shadowed-register-name")
+    guard = None
+    for st in iter_stmts(vq.body):
+        if isinstance(st, ast.If) and any(isinstance(x, ast.Return) for x in st.body):
+            for c in ast.walk(st.test):
+                if isinstance(c, ast.Compare) and len(c.ops) == 1 and isinstance(c.ops[0], ast.In):
+                    left_name = isinstance(c.left, ast.Attribute) and c.left.attr in ("name", "_name")
+                    right_state = isinstance(c.comparators[0], ast.Attribute) and c.comparators[0].attr in state
+                    if left_name and right_state:
+                        guard = st
+    if guard is not None:
+        rep.ok(rule, cons, f"`{ast.unparse(guard.test)}` (set from the macro's parameters in visit_Macro) leaves the reference unchanged", vq.loc())
+    else:
+        rep.violation(rule, cons, "a reference inside `macro m q { G a[1] ; H q }` (a an alias of register q) is rewritten to `q[2]`, which in the generated text indexes the PARAMETER q: re-parsing changes the meaning or fails to expand", vq.loc(), witness="register q[3]\nmap a q[1:3]\nmacro m q { G a[1] ; H q }\nm q[0]")
+
+
+def check_alias_name_kept(ctx, rep, rule: str, modules=("jaqalpaq.core.algorithm.fill_in_let",)):
+    """`map one q[1]` declares a name.  A pass that re-derives the reference as <source>[index] renames it to `q[1]`,
+    and inside `macro flip q { .. }` that spelling is captured by the parameter q in the generated text."""
+    from ..cfg import iter_stmts
+
+    ix, T = ctx.ix, ctx.typer
+    rep.rule(rule, "a pass re-derives a qubit reference by indexing its source only when the reference has no declared name of its own (a map-declared qubit alias keeps its name)", floor=1)
+    n = 0
+    for f in ix.functions.values():
+        if f.module not in modules or f.name != "visit_NamedQubit" or not f.cls:
+            continue
+        qb = f.params[1]
+        for st in iter_stmts(f.body):
+            if not (isinstance(st, ast.Return) and isinstance(st.value, ast.Subscript)):
+                continue
+            n += 1
+            cons = construct_of(f, "declared-name-kept")
+            guard = None
+            for g in iter_stmts(f.body):
+                if isinstance(g, ast.If) and g.lineno < st.lineno and any(isinstance(x, ast.Return) for x in g.body):
+                    if any(isinstance(m, ast.Attribute) and m.attr in ("name", "_name") and isinstance(m.value, ast.Name) and m.value.id == qb for m in ast.walk(g.test)):
+                        guard = g
+            if guard is not None:
+                rep.ok(rule, cons, f"`{ast.unparse(guard.test)[:70]}` keeps a declared name before `{ast.unparse(st)}`", f"{f.path}:{st.lineno}")
+            else:
+                rep.violation(rule, cons, f"`{ast.unparse(st)}` renames every reference to <source>[index], also a qubit alias declared by `map`: in `macro flip q {{ Px one ; Px q[0] }}` (one = q[1] of the register) the generated text `Px q[1]` indexes the parameter q, so the re-parsed program acts on another qubit", f"{f.path}:{st.lineno}", witness="register q[4]\nmap one q[1]\nmap hi q[2:4]\nmacro flip q { Px one ; Px q[0] }\nflip hi")
+    if n == 0:
+        rep.ok(rule, "core.algorithm.fill_in_let:visit_NamedQubit:declared-name-kept", "no handler re-derives references by indexing")
+
+
+def check_memo_numeric_keys(ctx, rep, rule: str):
+    """Python treats 1, 1.0 and True (and 0.0, -0.0) as the same dict key; a memo keyed on raw argument values hands
+    out the statement built for the first spelling."""
+    ix, T = ctx.ix, ctx.typer
+    rep.rule(rule, "the builder's gate memo keys numeric literals by type and spelling, not by Python equality (1 == 1.0 == True, 0.0 == -0.0)", floor=1)
+    memo = [c for c in ix.classes.values() if c.module == "jaqalpaq.core.circuitbuilder" and c.name.endswith("Memoizer")]
+    if not memo:
+        rep.exempt(rule, "core.circuitbuilder:memo", "the builder has no memo table")
+        return
+    for c in memo:
+        cons = cls_construct(ix, c.qualname, "memo-key:numeric-literals")
+        ok = None
+        for m in c.methods.values():
+            for st in ast.walk(m.node):
+                if isinstance(st, ast.If):
+                    tys = {ast.unparse(x).split(".")[-1] for t in ast.walk(st.test) if isinstance(t, ast.Call) and isinstance(t.func, ast.Name) and t.func.id == "isinstance" and len(t.args) == 2
+                           for x in (t.args[1].elts if isinstance(t.args[1], ast.Tuple) else [t.args[1]])}
+                    if tys & {"int", "float", "Number", "Real", "Integral"}:
+                        rets = [r for b in st.body for r in ast.walk(b) if isinstance(r, ast.Return) and r.value is not None]
+                        if any(any(isinstance(k, ast.Call) and isinstance(k.func, ast.Name) and k.func.id in ("type", "repr", "str") for k in ast.walk(r.value)) for r in rets):
+                            ok = m
+        if ok is not None:
+            rep.ok(rule, cons, f"{ok.name} keys numbers by type and repr", ok.loc())
+        else:
+            rep.violation(rule, cons, "numeric arguments enter the memo key as raw values: `foo 1; foo 1.0` builds `foo 1` twice, `Rz q[0] -0.0` after `Rz q[0] 0.0` loses its sign, and generated text changes (`loop 2.0 {` where `loop 2 {` was written)", c.loc(), witness="register q[2]\nfoo 1\nfoo 1.0")
+
+
+def check_number_finite(ctx, rep, rule: str):
+    """float() of a long literal overflows to inf, which neither the generator can write nor the parser read."""
+    from ..lexer import extract_lexer
+    from ..cfg import iter_stmts
+
+    ix = ctx.ix
+    rep.rule(rule, "the lexer rejects a float literal whose value is not finite (inf cannot be written back as Jaqal)", floor=1)
+    lm = extract_lexer(ix)
+    n = 0
+    for r in lm.rules:
+        if r.conversion != "float" or r.func is None:
+            continue
+        n += 1
+        cons = construct_of(r.func, "finite")
+        guard = None
+        for st in iter_stmts(r.func.body):
+            if isinstance(st, ast.If) and any(isinstance(x, ast.Raise) for x in st.body):
+                txt = ast.unparse(st.test)
+                if "inf" in txt or "isfinite" in txt or "isinf" in txt:
+                    guard = st
+        if guard is not None:
+            rep.ok(rule, cons, f"`{ast.unparse(guard.test)[:60]}` raises", r.func.loc())
+        else:
+            rep.violation(rule, cons, "`let big 1.0e999` is accepted with the value inf; the generator prints `let big inf`, which the parser rejects (the circuit has no text form)", r.func.loc(), witness="let big 1.0e999\nregister q[2]")
+    if n == 0:
+        raise AnalysisError(f"{rule}: no float-converting lexer rule found")
+
+
+def check_macro_relink(ctx, rep, rule: str, modules):
+    """A pass that builds new Macro objects directly (not through the builder, which links by name) must link the
+    call statements to them: a call keeps a reference to its definition (`gate_def`), and consumers follow it."""
+    ix, T = ctx.ix, ctx.typer
+    MACRO = "jaqalpaq.core.macro.Macro"
+    rep.rule(rule, "a visitor that constructs new Macro objects also re-links macro calls (a gate handler that takes the definition from the new table)", floor=1)
+    n = 0
+    for c in ix.classes.values():
+        if c.module not in modules or not T.is_visitor(c.qualname):
+            continue
+        builds = None
+        for m in c.methods.values():
+            for cs in T.callsites(m):
+                if cs.kind == "constructor" and cs.classes and cs.classes[0] == MACRO:
+                    builds = (m, cs.node)
+        if builds is None:
+            continue
+        n += 1
+        cons = cls_construct(ix, c.qualname, "macro-calls-relinked")
+        gh = c.methods.get("visit_GateStatement")
+        if gh is None:
+            rep.violation(rule, cons, f"{c.name} builds new Macro objects ({builds[0].name}) but has no gate handler: every call statement keeps pointing at the old definition, so used-qubit analysis and anything else that follows gate_def sees the untransformed body", f"{builds[0].path}:{builds[1].lineno}", witness="register q[3]\nmacro foo a { subcircuit { Px a } }\nfoo q[1]")
+            continue
+        self_n = gh.params[0]
+        reads_table = any(isinstance(m, ast.Attribute) and isinstance(m.value, ast.Name) and m.value.id == self_n and "macro" in m.attr for m in walk_no_nested(gh.node))
+        makes = any(isinstance(m, ast.Call) for st in ast.walk(gh.node) if isinstance(st, ast.Return) and st.value is not None for m in ast.walk(st.value))
+        if reads_table and makes:
+            rep.ok(rule, cons, "visit_GateStatement takes the definition from the visitor's macro table and builds a new call", gh.loc())
+        else:
+            rep.violation(rule, cons, "the gate handler does not link calls to the new macro table", gh.loc())
+    if n == 0:
+        rep.ok(rule, "core.algorithm:macro-builders", "no pass constructs Macro objects directly")
